@@ -35,4 +35,11 @@ CHECKS = {
   'note': 'Trusted: reference framer; bystander names more than one edit away from corpus names. Multi-edit corruptions are not enumerated.',
   'design_ref': 'DESIGN.md section 3 C06',
  },
+ 'C10': {
+  'engine': 'E-sched + E-input',
+  'technique': 'differential exhaustive enumeration on the real receive path (bare run vs wrapped run for every header subset x packet x table state) plus exhaustive reply-order enumeration for PIT tokens',
+  'text': 'For every corpus packet x table state x subset of 8 optional LpPacket headers (quick: subsets of size <=2 and >=7; thorough: all 256) the bare and the wrapped delivery are executed on both front-ends and handler calls, Interest outcomes and output compared; Nack reason codes at every integer-width boundary up to 2^64-1 against three pending Interests on two names; fragmented envelopes must have no effect; for k<=3 Interests with token lengths {none,0,1,8,32,33} every reply order and double replies are executed and every reply wire is checked by the reference LpPacket reader for identical token and unmodified reply bytes.',
+  'note': 'Trusted: mc/ref/ndn_strict.read_lp. Unknown header uses an ignorable type; absent NackReason carries no reason claim.',
+  'design_ref': 'DESIGN.md section 3 C10',
+ },
 }
